@@ -96,7 +96,8 @@ type env struct {
 
 	gate atomic.Value // *sched.Sched of the running gated execution, or (*sched.Sched)(nil)
 
-	origStorage *core.Storage
+	origStorage  *core.Storage
+	parkedWrites int64 // storage writes of gated workers that are at (or passing) the gate
 
 	backend string
 	lost    string // set when the server lost its leadership / restarted its cluster: no verdict
@@ -135,7 +136,9 @@ func (e *env) setupStorage(base kv.Base) error {
 			return
 		}
 		if s, _ := e.gate.Load().(*sched.Sched); s != nil {
+			atomic.AddInt64(&e.parkedWrites, 1)
 			s.Gate(kind, key)
+			atomic.AddInt64(&e.parkedWrites, -1)
 		}
 	}
 	e.kv.Done = func(kind, key string) {
@@ -233,7 +236,7 @@ func (e *env) resetWorld(md *model) error {
 
 func main() {
 	r := ev.New("C14", "exploration")
-	r.Rule("one case = one sequential history of 40 single commands on a freshly reset cluster (store 1 Up, 3 regions on it): put-store new / same id / same address / id 0 / bad version (RaftCluster.PutStore and gRPC PutStore), RemoveStore with and without physically-destroyed, UpStore, VerifBuryStore, VerifCheckStores, SetStoreWeight, UpdateStoreLabels (merge and force), RemoveTombStoneRecords, gRPC StoreHeartbeat, region placements / evacuations by region heartbeats (sometimes with a peer on a store id that is registered only later), reload of the cluster from storage (RaftCluster.Stop, empty cache, RaftCluster.Start = LoadClusterInfo); targets are drawn from ids 1..6 in every state (incl. tombstone, destroyed, absent); quick: one fail-before/lost-ack fault at a random write of ~1/3 of the steps; thorough: every step is re-issued with a fault at its 1st, 2nd, ... store-record write until no write is left (1/8 of the steps: at every write of any key). distinct = sequence of (command, state of the target before, outcome class, fault class) of the history. Gated phases (lib/sched, every storage operation of two workers parked, both start orders, all release orders depth-first; distinct = family x case x start order x fault x released (worker,op) sequence): heartbeat-race = a flushing gRPC StoreHeartbeat of store 2 (first heartbeat after a reload) against 13 lifecycle operations on store 2 (remove, remove physically-destroyed (+replacement on its address), up, bury, check-stores, bury+cleanup, bury+replacement, put same id, labels, weight, leader-change style reload); lifecycle-race = 22 pairs of lifecycle operations of different kinds on the same store (put same id | remove / bury, up | bury / check-stores, remove | check-stores, cleanup | put same id, labels | put, weight | remove, reload | remove / bury ...), on two stores competing for one address, and the background check working on a snapshot of several offline stores against an operation on one of them; address-race = three workers: an operation on a third store (weight, flushing heartbeat, remove, bury) parked inside its storage write while it holds the cluster lock, and two registrations wanting the same address (put-new | put-new, move | put-new, move | move, up of the holder | put-new) started while it is parked, then all release orders; each heartbeat-/lifecycle-race case also with a fail-before / lost-ack at the first store-record write of one worker (quick: one variant, thorough: all four x both orders). Populated worlds: 100 and 230 (thorough: 99..2100) store records incl. ids 2^32+-1, 2^63+-1, 2^64-3..2^64-1 in every state left in storage, reloaded (served == stored record by record), then a judged history on the stores at the 100-record page boundaries and the huge ids, mass burial, cleanup, reload. One-field grid: an Up and an Offline store registered with every field receive, via RaftCluster.PutStore, the gRPC handler and UpdateStoreLabels (merge/force), requests differing from the served record in exactly one field (address incl. host case / trailing dot / spaces / empty / the address of a live or offline store, status and peer address, labels order / key case / empty key or value / separators / duplicates / none, version, git hash, start timestamp, deploy path, client-supplied state and physically-destroyed mark), each first with a failing store-record write; empty-address sharing; ids 0, 2^64-2, 2^64-1 through the lifecycle. Server restart: history on an instrumented kv on the server own etcd root, server context cancelled then Close, new server on the same data directory, served after == served/stored before record by record, history continued on the new server")
+	r.Rule("one case = one sequential history of 40 single commands on a freshly reset cluster (store 1 Up, 3 regions on it): put-store new / same id / same address / id 0 / bad version (RaftCluster.PutStore and gRPC PutStore), RemoveStore with and without physically-destroyed, UpStore, VerifBuryStore, VerifCheckStores, SetStoreWeight, UpdateStoreLabels (merge and force), RemoveTombStoneRecords, gRPC StoreHeartbeat, region placements / evacuations by region heartbeats (sometimes with a peer on a store id that is registered only later), reload of the cluster from storage (RaftCluster.Stop, empty cache, RaftCluster.Start = LoadClusterInfo); targets are drawn from ids 1..6 in every state (incl. tombstone, destroyed, absent); quick: one fail-before/lost-ack fault at a random write of ~1/3 of the steps; thorough: every step is re-issued with a fault at its 1st, 2nd, ... store-record write until no write is left (1/8 of the steps: at every write of any key). distinct = sequence of (command, state of the target before, outcome class, fault class) of the history. Gated phases (lib/sched, every storage operation of two workers parked, both start orders, all release orders depth-first; distinct = family x case x start order x fault x released (worker,op) sequence): heartbeat-race = a flushing gRPC StoreHeartbeat of store 2 (first heartbeat after a reload) against 13 lifecycle operations on store 2 (remove, remove physically-destroyed (+replacement on its address), up, bury, check-stores, bury+cleanup, bury+replacement, put same id, labels, weight, leader-change style reload); lifecycle-race = 22 pairs of lifecycle operations of different kinds on the same store (put same id | remove / bury, up | bury / check-stores, remove | check-stores, cleanup | put same id, labels | put, weight | remove, reload | remove / bury ...), on two stores competing for one address, and the background check working on a snapshot of several offline stores against an operation on one of them; address-race = three workers: an operation on a third store (weight, flushing heartbeat, remove, bury) parked inside its storage write while it holds the cluster lock, and two registrations wanting the same address (put-new | put-new, move | put-new, move | move, up of the holder | put-new) started while it is parked, then all release orders; store-writer-race = the store writers that do not take the cluster lock (AttachAvailableFunc, PauseLeaderTransfer, ResumeLeaderTransfer, RemoveStoreLimit) against each lifecycle operation on the same store carrying a large generated label set, the writer started once the lifecycle write is parked and the write released by the settle rule while the writer is still copying, judged again after one more store heartbeat, plus free-running rounds of the same pairs on a small store; each heartbeat-/lifecycle-race case also with a fail-before / lost-ack at the first store-record write of one worker (quick: one variant, thorough: all four x both orders). Populated worlds: 100 and 230 (thorough: 99..2100) store records incl. ids 2^32+-1, 2^63+-1, 2^64-3..2^64-1 in every state left in storage, reloaded (served == stored record by record), then a judged history on the stores at the 100-record page boundaries and the huge ids, mass burial, cleanup, reload. One-field grid: an Up and an Offline store registered with every field receive, via RaftCluster.PutStore, the gRPC handler and UpdateStoreLabels (merge/force), requests differing from the served record in exactly one field (address incl. host case / trailing dot / spaces / empty / the address of a live or offline store, status and peer address, labels order / key case / empty key or value / separators / duplicates / none, version, git hash, start timestamp, deploy path, client-supplied state and physically-destroyed mark), each first with a failing store-record write; empty-address sharing; ids 0, 2^64-2, 2^64-1 through the lifecycle. Server restart: history on an instrumented kv on the server own etcd root, server context cancelled then Close, new server on the same data directory, served after == served/stored before record by record, history continued on the new server")
 	r.Assume("commands are invoked on the RaftCluster object / the gRPC handler methods of a real bootstrapped single-member server; the cluster and the server use core.NewStorage over an instrumented in-memory kv.Base installed with RaftCluster.SetStorage after bootstrap (thorough, last shard: the etcd-backed kv.Base)")
 	r.Assume("storage writes of the server's own background goroutines (10 s checkStores tick, coordinator) are refused by the harness wrapper so that histories are sequential; the same code is driven through VerifCheckStores")
 	r.Assume("region counts of the model are the placements the harness delivered through VerifProcessRegionHeartbeat and pd acknowledged; VerifBuryStore is only called when its documented precondition (store empty) holds in the model; new stores are registered in state Up; peers are never placed on tombstone stores; after a reload the model's placements are what the stored region records (raw scan of raft/r/<id>) say")
@@ -290,6 +293,9 @@ func main() {
 	md := newModel()
 	e.scripted(md)
 	e.racePhase(md, rng)
+	if e.lost == "" {
+		e.writerStress(md)
+	}
 	e.scalePhase(md, rng)
 	e.fieldPhase(md, rng)
 	replaySeed, replaying := int64(0), false
@@ -339,7 +345,7 @@ func main() {
 		m.Close()
 		r.Finish()
 	}
-	for _, c := range []string{"hook_VerifCheckStores", "hook_VerifBuryStore", "hook_VerifProcessRegionHeartbeat", "faults_injected", "race_executions_heartbeat-race", "race_executions_lifecycle-race", "race_executions_address-race", "race_faults_injected", "race_heartbeat_flushes", "scale_worlds", "one_field_requests", "server_restarts", "reloads", "placements_on_unregistered_store_id", "transition_Up->Offline", "transition_Offline->Tombstone", "transition_Offline->Up", "tombstone_grpc_requests", "record_deleted"} {
+	for _, c := range []string{"hook_VerifCheckStores", "hook_VerifBuryStore", "hook_VerifProcessRegionHeartbeat", "faults_injected", "race_executions_heartbeat-race", "race_executions_lifecycle-race", "race_executions_address-race", "race_executions_store-writer-race", "store_writer_overlapped_lifecycle_op", "race_faults_injected", "race_heartbeat_flushes", "scale_worlds", "one_field_requests", "server_restarts", "reloads", "placements_on_unregistered_store_id", "transition_Up->Offline", "transition_Offline->Tombstone", "transition_Offline->Up", "tombstone_grpc_requests", "record_deleted"} {
 		if r.Counter(c) == 0 {
 			r.Inconclusive("nothing observed for %s", c)
 		}
